@@ -120,6 +120,8 @@ def _post(chk, cases, bad, extra):
     import keyed_explore
     keyed_attributes(chk, cases, bad, extra)
     keyed_explore.explore(chk, extra, "C04")
+    import wide_explore
+    wide_explore.explore(chk, extra, "C04")
 
 
 def main(tier, replay=None):  # noqa: F811
